@@ -229,6 +229,30 @@ theorem timed_exact (env : Env) (i : Nat) (d : Int) (s0 s : St)
   apply propext
   constructor <;> intro hh <;> omega
 
+/-- the condition **as coded** (`mkTimedCoded`: the end point is a wrapping 64-bit addition on the clock's
+absolute nanoseconds) meets `timed_exact` whenever the end point fits the clock's range.
+
+Full statement (no range hypothesis): refuted by `timed_overflow_fails` (finding F195). -/
+theorem timed_exact_partial (env : Env) (base : Int) (i : Nat) (d : Int) (s0 s : St) (h : s.term i = false)
+    (hlo : -9223372036854775808 ≤ base + env.clock s0.reads + d)
+    (hhi : base + env.clock s0.reads + d < 9223372036854775808) :
+    (eval env (mkTimedCoded env base i false d s0).1 s).1 = decide (env.clock s.reads - env.clock s0.reads > d) := by
+  simp only [mkTimedCoded, endPointCoded, wrap64_of_inRange _ hlo hhi, eval, h, callLeaf]
+  simp only [Bool.false_eq_true, ↓reduceIte]
+  congr 1
+  apply propext
+  constructor <;> intro hh <;> omega
+
+/-- F195: a duration of 2^63 ns (292 years; likewise +infinity, DBL_MAX, `time::duration::max()` after the
+conversion) wraps around and the condition is true at the very reading it was created at. -/
+theorem timed_overflow_fails :
+    ¬ (∀ (env : Env) (base : Int) (i : Nat) (d : Int) (s0 s : St), s.term i = false →
+        (eval env (mkTimedCoded env base i false d s0).1 s).1 = decide (env.clock s.reads - env.clock s0.reads > d)) := by
+  intro hall
+  have h := hall { pred := fun _ _ => false, clock := fun _ => 0 } 0 0 9223372036854775808 {} {} rfl
+  revert h
+  decide
+
 /-- never reverting: with a monotone clock, once a timed condition has answered true it answers true
 after any further operations (which may read the clock, terminate, poll, report costs …). -/
 theorem timed_monotone {α} [PNum α] (env : Env) (hmono : ∀ m n, m ≤ n → env.clock m ≤ env.clock n)
@@ -286,6 +310,17 @@ theorem polled_catches_up (env : Env) (i id K : Nat) (s : St) (h : s.term i = fa
   · simp only [poll, Cond.impl, h, callFn, callLeaf]
     simp only [Bool.false_eq_true, ↓reduceIte, upd_same]
     omega
+
+/-- the periodic timed form never reverts either: with a monotone clock, once some poll has read a clock
+beyond the end point, every later poll (at a later reading) leaves the condition true. -/
+theorem polled_timed_never_reverts (env : Env) (hmono : ∀ m n, m ≤ n → env.clock m ≤ env.clock n)
+    (i : Nat) (e : Int) (s s' : St) (hpast : env.clock s.reads > e) (hle : s.reads ≤ s'.reads)
+    (ht : s'.term i = false) :
+    (eval env (.leaf i true (.timed e)) (poll env (.leaf i true (.timed e)) s')).1 = true := by
+  rw [polled_lag env i _ s' ht]
+  simp only [callLeaf, decide_eq_true_eq]
+  have := hmono _ _ hle
+  omega
 
 /-- the poller stops working after `terminate()`: a poll changes nothing -/
 theorem polled_stops (env : Env) (c : Cond) (s : St) (h : s.term c.impl = true) : poll env c s = s := by
@@ -401,6 +436,30 @@ example : FiresAt 2 (1 / 10) (fun _ => 1) 2 ∧ ¬ FiresAt 2 (1 / 10) (fun _ => 
   constructor
   · refine ⟨by norm_num, by norm_num, ?_, ?_⟩ <;> norm_num [avg]
   · intro h; exact absurd h.2.1 (by norm_num)
+
+/-- window 1 (`solutionsWindow = 1`): the "average" is the last cost, so the condition fires at the first
+report `k ≥ 2` whose cost is within the relative threshold of the previous one. -/
+theorem costConv_window_one (eps : ℚ) (c : Nat → ℚ) (k : Nat) :
+    FiresAt 1 eps c (k + 2) ↔ ((1 - eps) * c k < c (k + 1) ∧ c (k + 1) < (1 + eps) * c k) := by
+  simp only [FiresAt, avg_window_one, show k + 2 - 1 = k + 1 by omega]
+  constructor
+  · rintro ⟨_, _, h1, h2⟩; exact ⟨h1, h2⟩
+  · rintro ⟨h1, h2⟩; exact ⟨by omega, by omega, h1, h2⟩
+
+/-- and the very first report can never fire, whatever the window (avg₀ = 0, both inequalities strict) -/
+theorem costConv_first_never (win : Nat) (eps : ℚ) (c : Nat → ℚ) : ¬ FiresAt win eps c 1 := by
+  rintro ⟨_, _, h1, h2⟩
+  simp only [Nat.sub_self, avg, mul_zero] at h1 h2
+  exact absurd (lt_trans h1 h2) (lt_irrefl _)
+
+/-! ### `timedPlannerTerminationCondition(duration, interval)`: the clamp `[EX over ℚ]` -/
+
+/-- the period handed to the impl is `min(duration, interval)`; the condition is the periodic form iff both
+are positive - in particular a non-positive duration gives the direct form whatever the interval. -/
+theorem timed_interval_clamp (d i : ℚ) :
+    timedInterval d i = min d i ∧ (0 < timedInterval d i ↔ (0 < d ∧ 0 < i)) := by
+  refine ⟨timedInterval_eq_min d i, ?_⟩
+  rw [timedInterval_eq_min, lt_min_iff]
 
 /-! ### `Planner::solve(double)` `[EX over ℚ]` -/
 
